@@ -171,6 +171,23 @@ fn class_of(dbg: &str) -> String {
     format!("{top}/Other")
 }
 
+/// `pre=k`: the caller's vectors already hold k items (the read calls append); the k items must
+/// come back untouched and are not part of the observation
+fn prefilled(a: &BTreeMap<String, String>) -> (Vec<u64>, Vec<Vec<u8>>, usize) {
+    let k: usize = a.get("pre").and_then(|v| v.parse().ok()).unwrap_or(0);
+    ((0..k as u64).map(|i| 7_000_000 + i).collect(), (0..k).map(|i| vec![0xEE, i as u8]).collect(), k)
+}
+
+fn fmt_appended(ts: &[u64], pl: &[Vec<u8>], k: usize) -> String {
+    let intact = ts.len() >= k
+        && pl.len() >= k
+        && (0..k).all(|i| ts[i] == 7_000_000 + i as u64 && pl[i] == vec![0xEE, i as u8]);
+    if !intact {
+        return "err caller-items-changed".to_string();
+    }
+    fmt_entries(&ts[k..], &pl[k..])
+}
+
 fn fmt_entries(ts: &[u64], pl: &[Vec<u8>]) -> String {
     if ts.is_empty() {
         return "ok -".to_string();
@@ -444,11 +461,10 @@ impl Runner {
                 let (Some(s), Some(e)) = (bound(&a["s"]), bound(&a["e"])) else {
                     return "bad-op".into();
                 };
+                let (mut ts, mut d, k) = prefilled(&a);
                 self.with_series(|bs, _| {
-                    let mut ts = Vec::new();
-                    let mut d = Vec::new();
                     match bs.read_all((s, e), &mut Copy, &mut ts, &mut d) {
-                        Ok(()) => fmt_entries(&ts, &d),
+                        Ok(()) => fmt_appended(&ts, &d, k),
                         Err(er) => format!("err {}", class_of(&format!("{er:?}"))),
                     }
                 })
@@ -458,11 +474,10 @@ impl Runner {
                     return "bad-op".into();
                 };
                 let n: usize = a["n"].parse().unwrap();
+                let (mut ts, mut d, k) = prefilled(&a);
                 self.with_series(|bs, _| {
-                    let mut ts = Vec::new();
-                    let mut d = Vec::new();
                     match bs.read_first_n(n, &mut Copy, (s, e), &mut ts, &mut d) {
-                        Ok(()) => fmt_entries(&ts, &d),
+                        Ok(()) => fmt_appended(&ts, &d, k),
                         Err(er) => format!("err {}", class_of(&format!("{er:?}"))),
                     }
                 })
